@@ -123,6 +123,12 @@ func runC14(t *mon.T, raw json.RawMessage) {
 	if err != nil {
 		panic(err)
 	}
+	if d.Container == "v2-indexless" && d.Seed%2 == 0 {
+		// bytes that do not belong to the archive follow it in the source (the next message of a stream,
+		// say): the header tells where the payload ends, nothing beyond may be read or parsed
+		file = append(file, gen.Bytes(r, 40+r.Intn(80))...)
+		t.Cover("indexless-v2-followed-by-foreign-bytes")
+	}
 	po := a.PayloadOff
 	pend := int64(po + a.PayloadLen)
 	n := len(ref.Sections)
